@@ -47,6 +47,8 @@ pub struct CsvCfg {
     pub delimiter: u8,
     pub batch_size: usize,
     pub crlf: bool,
+    /// reader option: rows with fewer fields than the schema are padded with nulls
+    pub truncated_rows: bool,
 }
 
 pub struct CsvFmt {
@@ -58,7 +60,7 @@ pub struct CsvFmt {
 
 impl CsvFmt {
     pub fn gen_cfg(ctx: &Ctx) -> CsvCfg {
-        CsvCfg { header: ctx.chance(1, 2, "csv.header"), delimiter: *ctx.pick(&[b',', b';', b'\t', b'|'], "csv.delim"), batch_size: *ctx.pick(&[1024, 1, 2, 3, 7], "csv.batch"), crlf: ctx.chance(1, 3, "csv.crlf") }
+        CsvCfg { header: ctx.chance(1, 2, "csv.header"), delimiter: *ctx.pick(&[b',', b';', b'\t', b'|'], "csv.delim"), batch_size: *ctx.pick(&[1024, 1, 2, 3, 7], "csv.batch"), crlf: ctx.chance(1, 3, "csv.crlf"), truncated_rows: ctx.chance(1, 3, "csv.truncated_rows") }
     }
     pub fn writer_builder(&self) -> arrow_csv::WriterBuilder {
         let mut b = arrow_csv::WriterBuilder::new().with_header(self.cfg.header).with_delimiter(self.cfg.delimiter);
@@ -68,7 +70,7 @@ impl CsvFmt {
         b
     }
     pub fn reader_builder(&self) -> arrow_csv::ReaderBuilder {
-        arrow_csv::ReaderBuilder::new(self.wl.schema.clone()).with_header(self.cfg.header).with_delimiter(self.cfg.delimiter).with_batch_size(self.cfg.batch_size)
+        arrow_csv::ReaderBuilder::new(self.wl.schema.clone()).with_header(self.cfg.header).with_delimiter(self.cfg.delimiter).with_batch_size(self.cfg.batch_size).with_truncated_rows(self.cfg.truncated_rows)
     }
 }
 
